@@ -190,8 +190,14 @@ async def _serial(sc: dict) -> dict:
         orig_acquire = t._leaker_sem.acquire
 
         async def acquire() -> bool:
-            fr = sys._getframe(1)
-            ident = ids.get(fr.f_locals.get("frame"))
+            fr, ident = sys._getframe(1), None
+            for _ in range(8):              # the caller is write_frame(self, frame, ...), possibly through a helper or two
+                if fr is None:
+                    break
+                ident = ids.get(fr.f_locals.get("frame")) if isinstance(fr.f_locals.get("frame"), str) else None
+                if ident is not None:
+                    break
+                fr = fr.f_back
             if ident is not None:
                 sx["passes"].append({"id": ident, "t": ticks(loop.time())})
             return await orig_acquire()
